@@ -23,6 +23,8 @@
      decode_anc/dec_last/dec_hc   flags from the characters of a prefix *)
 From Coq Require Import List ZArith Bool Arith.
 From NT Require Import Sx Rose Nav NavProofs Format FormatProofs FormatDecode FormatNav CaseC16.
+From NT Require MiscPrint MiscPrintProofs.   (* part PRINT, imported at the end of this file *)
+From NT Require MiscRepr MiscRender MiscRenderProofs FsReprDecode.
 From NTGen Require Import Generated.
 Import ListNotations.
 
@@ -506,3 +508,97 @@ Qed.
 Theorem C16_generated_facts_present : GEN_CONNECTORS_OK = true.
 Proof. reflexivity. Qed.
 Print Assumptions C16_generated_facts_present.
+
+(* ==== PART PRINT: Tree.print = print(self.format(<the same arguments>), file=file)  (model theories/Forest/MiscPrint.v,
+   correspondence Cases/CaseMiscPrint.v with stdout captured, harness parts_misc.PRINT).  [tree_print ... file_given] is
+   what is written and where ([SStdout] / [SFile]); there is no Node.print. ==== *)
+Import MiscPrint MiscPrintProofs.
+
+(* print writes exactly format(...) of the same arguments plus one newline, to the requested stream *)
+Theorem C16_print_is_format : forall table default rend trepr f a ti j fg s t,
+  tree_print table default rend trepr f a ti j fg = Ok (s, t) <->
+  exists t0, tree_format table default rend trepr f a ti j = Ok t0 /\ t = t0 ++ [10%Z] /\ s = (if fg then SFile else SStdout).
+Proof. exact print_ok_iff. Qed.
+Print Assumptions C16_print_is_format.
+
+(* when format raises (unknown style name, malformed custom style), print raises the same error and nothing is written *)
+Theorem C16_print_error_iff : forall table default rend trepr f a ti j fg e,
+  tree_print table default rend trepr f a ti j fg = Err e <-> tree_format table default rend trepr f a ti j = Err e.
+Proof. exact print_err_iff. Qed.
+Print Assumptions C16_print_error_iff.
+
+(* file= selects the stream and nothing else *)
+Theorem C16_print_stream_independent : forall table default rend trepr f a ti j,
+  match tree_print table default rend trepr f a ti j true, tree_print table default rend trepr f a ti j false with
+  | Ok (s1, t1), Ok (s2, t2) => s1 = SFile /\ s2 = SStdout /\ t1 = t2
+  | Err e1, Err e2 => e1 = e2
+  | _, _ => False
+  end.
+Proof. exact print_stream_independent. Qed.
+Print Assumptions C16_print_stream_independent.
+
+(* the format text is the output without its last character, and that character is the newline *)
+Theorem C16_print_decodes : forall table default rend trepr f a ti j fg s t,
+  tree_print table default rend trepr f a ti j fg = Ok (s, t) ->
+  tree_format table default rend trepr f a ti j = Ok (removelast t) /\ last t 0%Z = 10%Z.
+Proof. exact print_decodes. Qed.
+Print Assumptions C16_print_decodes.
+
+(* with the default join: every line of format_iter followed by a newline (no line at all: one bare newline) – so all
+   line-level theorems of this file (prefixes, depths, shape recovery) speak about the printed lines *)
+Theorem C16_print_lines : forall table default rend trepr f a ti fg ls,
+  tree_format_iter table default rend trepr f a ti = Ok ls ->
+  tree_print table default rend trepr f a ti [10%Z] fg =
+    Ok (if fg then SFile else SStdout, match ls with [] => [10%Z] | _ => flat_map (fun l => l ++ [10%Z]) ls end).
+Proof. exact print_default_join_lines. Qed.
+Print Assumptions C16_print_lines.
+
+(* tie to the source (gen_facts section MISCPRINT): print passes repr/style/title/join to format under the same names and
+   file to the builtin print; its own defaults for these four are format's defaults; file defaults to None *)
+Theorem C16_print_source_facts :
+  GEN_MISCPRINT_OK = true /\
+  map fst PRINT_TO_FORMAT = map snd PRINT_TO_FORMAT /\ map fst PRINT_TO_FORMAT = map fst FORMAT_KWONLY /\
+  firstn (length FORMAT_KWONLY) PRINT_KWONLY = FORMAT_KWONLY /\
+  skipn (length FORMAT_KWONLY) PRINT_KWONLY = [([102; 105; 108; 101]%Z, [78; 111; 110; 101]%Z)] /\
+  PRINT_TO_PRINT = [([102; 105; 108; 101]%Z, [102; 105; 108; 101]%Z)].
+Proof. repeat split. Qed.
+Print Assumptions C16_print_source_facts.
+
+(* non-vacuity: a two-node tree printed with the default arguments, and an unknown style *)
+Example C16_print_ex :
+  tree_print CONNECTORS DEFAULT_CONNECTOR_STYLE (fun t => i_name (rinfo t)) (tree_repr [84]%Z [110]%Z)
+             [T 1 (I 0 0 0 true [97]%Z (DInt 1) None []) [T 2 (I 1 1 1 true [98]%Z (DInt 2) None []) []]] StDefault TiDefault [10%Z] false =
+  Ok (SStdout, [84; 60; 39; 110; 39; 62; 10; 9584; 9472; 9472; 32; 97; 10; 32; 32; 32; 32; 9584; 9472; 9472; 32; 98; 10]%Z) /\
+  tree_print CONNECTORS DEFAULT_CONNECTOR_STYLE (fun t => i_name (rinfo t)) (tree_repr [84]%Z [110]%Z)
+             [T 1 (I 0 0 0 true [97]%Z (DInt 1) None []) []] (StName [120]%Z) TiDefault [10%Z] true = Err EValue.
+Proof. vm_compute. split; reflexivity. Qed.
+
+(* ---- the default rendering templates (model theories/Forest/MiscRender.v, compared on every node by parts_misc.PRINT) ---- *)
+Import MiscRepr MiscRender MiscRenderProofs.
+
+(* repr=None: a plain tree shows repr(data) – for an ASCII str the quoted, escaped literal –, a typed tree "kind → str(data)";
+   the typed template on a node without kind raises *)
+Theorem C16_default_render : forall t given,
+  render_with templ_node t given = Some (data_repr t given) /\
+  render_with templ_typed t given = match rkind t with Some k => Some (k ++ [32; 8594; 32]%Z ++ i_name (rinfo t)) | None => None end.
+Proof. intros t given. exact (conj (render_node_default t given) (render_typed_default t given)). Qed.
+Print Assumptions C16_default_render.
+
+(* the shown text determines an ASCII str data value (quotes and backslashes included) *)
+Theorem C16_default_render_injective : forall a b ga gb,
+  i_isstr (rinfo a) = true -> i_isstr (rinfo b) = true -> is_ascii (i_name (rinfo a)) = true -> is_ascii (i_name (rinfo b)) = true ->
+  Forall FsReprDecode.cp_ok (i_name (rinfo a)) -> Forall FsReprDecode.cp_ok (i_name (rinfo b)) ->
+  render_with templ_node a ga = render_with templ_node b gb -> i_name (rinfo a) = i_name (rinfo b).
+Proof. exact render_node_default_injective. Qed.
+Print Assumptions C16_default_render_injective.
+
+(* the templates of the model are the class attributes of the source *)
+Theorem C16_default_render_templates_from_source :
+  NODE_DEFAULT_RENDER_REPR = templ_node /\ TYPED_DEFAULT_RENDER_REPR = templ_typed.
+Proof. split; reflexivity. Qed.
+Print Assumptions C16_default_render_templates_from_source.
+
+Example C16_default_render_ex :
+  render_with templ_node (T 1 (I 0 0 0 true [105; 116; 39; 115]%Z (DInt 1) None []) []) [] = Some [34; 105; 116; 39; 115; 34]%Z /\
+  render_with templ_typed (T 1 (I 0 0 0 true [97]%Z (DInt 1) (Some [107]%Z) []) []) [] = Some [107; 32; 8594; 32; 97]%Z.
+Proof. vm_compute. split; reflexivity. Qed.
